@@ -33,7 +33,7 @@ Extraction "sbmodel.ml"
   plan_init num_entries get_point evaluate_at encode_plan eval_spec wf_splan
   (* C01 C07 C08 *)
   traj_init seek cursor0 position_of velocity_of acceleration_of landing_cursor total_duration_msec segments segments_prefix
-  tol_at final_tol traj_pos encode_traj wf_straj total_ms bezier make_bezier horner deriv scale stretch add_constant QOps
+  tol_at final_tol traj_pos encode_traj wf_straj total_ms bezier make_bezier make_bezier_c horner deriv scale stretch add_constant QOps
   (* C10 *)
   yaw_init yaw_is_empty yseek ycursor0 ylanding_cursor yaw_of yaw_rate_of yaw_total_duration_msec
   yaw_tol yaw_tol_at yaw_spec rate_spec encode_yaw wf_syaw
